@@ -191,7 +191,7 @@ func bufprop(r *simkit.Run, prop string) {
 			}
 			sc.readHow = rapid.IntRange(0, 2).Draw(rt, "read-how")
 			sc.closeBody = rapid.Bool().Draw(rt, "close-body")
-			sc.writeHow = rapid.SampledFrom([]int{0, 0, 1, 2, 3}).Draw(rt, "write-how")
+			sc.writeHow = rapid.SampledFrom([]int{0, 0, 1, 2, 3, 4, 5}).Draw(rt, "write-how")
 			if ex.writerKind != "" {
 				sc.tryHijack = rapid.Bool().Draw(rt, "try-hijack")
 			}
